@@ -2,8 +2,13 @@
 # tools/rf.sh <refactor N | path to patch> <check ids...>: run checks against HEAD + patch in a scratch export (no tests)
 n=$1; shift
 p=$n; [ -f "/verif/refactors/$n/patch.diff" ] && p=/verif/refactors/$n/patch.diff
-d=$(mktemp -d /tmp/rf-XXXX); git -C /repo archive HEAD src Cargo.toml benches tests | tar -x -C $d; cp /repo/Cargo.lock $d/
-(cd $d && git init -q . 2>/dev/null && git apply --whitespace=nowarn $p) || { echo "patch failed"; rm -rf $d; exit 3; }
+d=$(mktemp -d /tmp/rf-XXXX)
+/verif/tools/mktree.sh $p $d || { echo "patch failed"; rm -rf $d; exit 3; }
 cd /verif
-for c in "$@"; do BP_EVIDENCE_DIR=$d/evidence BP_REPO=$d ./check $c | grep -vE "^VIOLATION|^  at " | cut -c1-${W:-330}; done
+for c in "$@"; do
+  out=$(BP_EVIDENCE_DIR=$d/evidence BP_REPO=$d ./check $c)
+  [ -f $d/.oldbase ] && out=$(echo "$out" | python3 /verif/tools/oldbase_filter.py)
+  echo "$out" | grep -vE "^VIOLATION|^  at " | cut -c1-${W:-330}
+done
+[ -f $d/.oldbase ] && echo "(old base 05a894e: the two repaired defects of the base are not shown; the summary line still counts them)"
 rm -rf $d
